@@ -427,10 +427,48 @@ func runC08(c *ctx) {
 		c.Class("unclosed-string-last-on-its-line")
 		c08Eval(c, cs)
 	})
+	// round 11: a comment glued to EVERY token in turn (no blank before the "//"), in particular to message names that
+	// hold slashes, and comment bodies that end in each Unicode white-space code point followed by blanks, tabs or CR
+	{
+		r := c.rnd.Derive(811)
+		names := []string{"In/Out", "a/b/c", "/x", "x/y/", "漢/字", "a/b", "/", "p/*q", "plain", "http:/x", "a/-/b"}
+		ends := []string{"\u3000", "\u2003", "\u2009", "\u1680", "\u202f", "\u205f", "\u2028", "\u2029", "\u200b", "\ufeff", "\u00a0", "\u0085", "\v", "\f", "é", "/", "//"}
+		tails := []string{"", " ", "\t", "  \t ", "\r"}
+		it := &ref.Item{Kind: ref.L, Children: []*ref.Item{{Kind: ref.U1, Slots: []ref.Slot{{Uint: 1}, {Var: "v/w"}}}, {Kind: ref.A, Str: []byte("a//b")}, {Kind: ref.L, Children: []*ref.Item{{Kind: ref.BOOLEAN, Slots: []ref.Slot{{Uint: 1}}}}}}}
+		for ni, name := range names {
+			for wi, w := range []int{0, 1, 2} {
+				m := &ref.Msg{Name: name, Stream: 1 + ni, Function: 1 + 2*wi, W: w, Dir: []string{"H->E", "H<-E", "H<->E"}[(ni+wi)%3], Item: it, Session: -1}
+				toks := smltext.MsgToks(&smltext.NumStyle{R: r}, m, wi == 1)
+				base := smltext.Canonical(toks)
+				rd1 := smltext.Render(toks, "", base, nil)
+				for at := 0; at+1 < len(toks); at++ {
+					if strings.HasSuffix(toks[at].S, "/") {
+						continue // "x/" + "//c" would read as "x" + "///c"
+					}
+					body := "note " + ends[(at+ni)%len(ends)] + tails[(at+wi)%len(tails)]
+					if at%3 == 0 {
+						body = ends[(at+ni)%len(ends)] + tails[(at+wi)%len(tails)]
+					}
+					gaps := append([]string(nil), base...)
+					gaps[at] = "//" + body + "\n"
+					rd2 := smltext.Render(toks, "", gaps, nil)
+					cs := c08Case{Move: "layout", Kind: "valid"}
+					for _, t := range toks {
+						cs.Toks = append(cs.Toks, t.S)
+					}
+					cs.Text1, cs.Text2 = rd1.Text, rd2.Text
+					cs.Pos1, cs.Pos2 = posList(rd1.Tok), posList(rd2.Tok)
+					cs.End1, cs.End2 = [2]int{rd1.End.Line, rd1.End.Col}, [2]int{rd2.End.Line, rd2.End.Col}
+					c.Class("comment-glued-to-every-token-in-turn")
+					c08Eval(c, cs)
+				}
+			}
+		}
+	}
 	for k, v := range agg {
 		c.ClassN("layout/"+k, int64(v))
 	}
-	c.Required = []string{"unclosed-string-last-on-its-line", "move/layout/valid", "move/layout/mutated", "move/layout/soup", "move/layout/odd-literal", "move/case/odd-literal", "move/case/valid", "accepted", "with-errors", "layout/comment", "layout/comment-final-byte/0xa0", "layout/comment-final-byte/0x85", "layout/comment/final-without-eol", "layout/size-declaration-with-inner-line-break", "layout/gap-beyond-65536-columns-or-lines", "diagnostic-at/token", "diagnostic-at/end", "several-diagnostics-out-of-text-order"}
+	c.Required = []string{"comment-glued-to-every-token-in-turn", "unclosed-string-last-on-its-line", "move/layout/valid", "move/layout/mutated", "move/layout/soup", "move/layout/odd-literal", "move/case/odd-literal", "move/case/valid", "accepted", "with-errors", "layout/comment", "layout/comment-final-byte/0xa0", "layout/comment-final-byte/0x85", "layout/comment/final-without-eol", "layout/size-declaration-with-inner-line-break", "layout/gap-beyond-65536-columns-or-lines", "diagnostic-at/token", "diagnostic-at/end", "several-diagnostics-out-of-text-order"}
 }
 
 func replayC08(c *ctx, raw json.RawMessage) {
